@@ -1,4 +1,5 @@
 import Model.C17.CompactBlocks
+import Mathlib.Data.List.Perm.Basic
 namespace Btc.CompactBlocks
 
 /-- what the walk knows about one short id -/
@@ -493,5 +494,216 @@ theorem fillP_reconstruct (sid : Nat → Nat) (blk pre pool : List Nat) (slots :
   have hf := (reconstruct_fill sid blk pre pool slots hcount hcoll h).1
   unfold fillP
   rw [missing_count, if_neg (by simp), fillGo_view slots blk hlen, hf]
+
+/-! ### the whole exchange: announce, reconstruct, ask for the missing, fill -/
+
+theorem compactOf_eq (sid : Nat → Nat) (blk pre : List Nat) :
+    compactOf sid blk pre = (freePos pre blk.length).map fun j => sid (blk.getD j 0) := rfl
+
+theorem increasing_bound : ∀ (pre : List Nat) (n : Nat), increasing pre = true →
+    (match pre.getLast? with | some l => decide (l < n) | none => true) = true →
+    pre.Nodup ∧ ∀ x ∈ pre, x < n
+  | [], _, _, _ => by simp
+  | [a], n, _, h => by simpa using h
+  | a :: b :: rest, n, hi, hl => by
+    simp only [increasing, Bool.and_eq_true, decide_eq_true_eq] at hi
+    have hl' : (match (b :: rest).getLast? with | some l => decide (l < n) | none => true) = true := by
+      simpa [List.getLast?_cons_cons] using hl
+    obtain ⟨hnd, hb⟩ := increasing_bound (b :: rest) n hi.2 hl'
+    -- a is below everything after it
+    have hlt : ∀ (l : List Nat) (c : Nat), increasing (c :: l) = true → ∀ x ∈ l, c < x := by
+      intro l
+      induction l with
+      | nil => intro c _ x hx; cases hx
+      | cons d l ih =>
+        intro c hc x hx
+        simp only [increasing, Bool.and_eq_true, decide_eq_true_eq] at hc
+        rcases List.mem_cons.mp hx with rfl | hx'
+        · exact hc.1
+        · exact Nat.lt_trans hc.1 (ih d hc.2 x hx')
+    have ha : ∀ x ∈ b :: rest, a < x := hlt (b :: rest) a (by simp [increasing, hi.1, hi.2])
+    refine ⟨List.nodup_cons.mpr ⟨fun hm => Nat.lt_irrefl a (ha a hm), hnd⟩, ?_⟩
+    intro x hx
+    rcases List.mem_cons.mp hx with rfl | hx'
+    · exact Nat.lt_trans (ha b (by simp)) (hb b (by simp))
+    · exact hb x hx'
+
+/-- valid prefilled positions leave exactly `count - len(prefilled)` positions for the short ids -/
+theorem freePos_count (pre : List Nat) (n : Nat) (hnd : pre.Nodup) (hb : ∀ x ∈ pre, x < n) :
+    (freePos pre n).length + pre.length = n := by
+  have hperm : ((List.range n).filter fun i => pre.contains i).Perm pre := by
+    apply (List.perm_ext_iff_of_nodup (List.nodup_range.sublist List.filter_sublist) hnd).mpr
+    intro a
+    simp only [List.mem_filter, List.mem_range, List.contains_iff_mem]
+    exact ⟨fun h => h.2, fun h => ⟨hb a h, h⟩⟩
+  have hsplit := List.length_eq_length_filter_add (l := List.range n) (fun i => pre.contains i)
+  unfold freePos
+  rw [List.length_range] at hsplit
+  have hl := hperm.length_eq
+  have : (List.filter (fun i => !pre.contains i) (List.range n)) =
+      List.filter (fun x => !(fun i => pre.contains i) x) (List.range n) := rfl
+  omega
+
+theorem reconstruct_dup_iff (pre sids : List Nat) (pool : List (Nat × Nat)) :
+    reconstruct pre sids pool = .error .dupShortIds ↔
+      sids.length + pre.length ≠ 0 ∧ positionsOk pre (sids.length + pre.length) = true ∧ hasDup sids = true := by
+  unfold reconstruct
+  simp only []
+  by_cases h0 : sids.length + pre.length = 0
+  · simp [h0]
+  · simp only [h0, if_false]
+    cases hp : positionsOk pre (sids.length + pre.length)
+    · simp
+    · simp only [Bool.not_true, Bool.false_eq_true, if_false]
+      cases hd : hasDup sids
+      · simp
+      · simpa using h0
+
+theorem reconstruct_is_ok (pre sids : List Nat) (pool : List (Nat × Nat)) (h0 : sids.length + pre.length ≠ 0)
+    (hp : positionsOk pre (sids.length + pre.length) = true) (hd : hasDup sids = false) :
+    ∃ slots, reconstruct pre sids pool = .ok slots := by
+  unfold reconstruct
+  simp only [h0, if_false, hp, Bool.not_true, Bool.false_eq_true, hd]
+  exact ⟨_, rfl⟩
+
+/-- `fill ∘ reconstruct` under the WEAK collision hypothesis: a pool transaction may share a needed short id with a
+    different needed transaction as long as the pool holds the needed one as well (the collision is then seen and the
+    position asked for); only a stranger standing ALONE under a needed short id is excluded. -/
+theorem reconstruct_fill_weak (sid : Nat → Nat) (blk pre pool : List Nat) (slots : List Slot)
+    (hcount : (freePos pre blk.length).length + pre.length = blk.length)
+    (hcoll : ∀ w ∈ pool, ∀ j ∈ freePos pre blk.length, ∀ b, blk[j]? = some b → sid w = sid b → w = b ∨ b ∈ pool)
+    (h : reconstruct pre ((freePos pre blk.length).map fun j => sid (blk.getD j 0))
+          (pool.map fun w => (sid w, w)) = .ok slots) :
+    slots.length = blk.length ∧ fill slots blk = blk := by
+  obtain ⟨hlen, hpre, hfree⟩ := reconstruct_slots _ _ _ _ h
+  simp only [List.length_map, hcount] at hlen hpre hfree
+  refine ⟨hlen, ?_⟩
+  apply fill_eq slots blk hlen
+  intro j w b hs hb
+  have hjlt : j < blk.length := (List.getElem?_eq_some_iff.mp hb).1
+  by_cases hjp : j ∈ pre
+  · rw [hpre j hjlt hjp] at hs; cases hs
+  · have hj : j ∈ freePos pre blk.length := (mem_freePos pre blk.length j).mpr ⟨hjlt, hjp⟩
+    have hm := mem_zip_map (fun j => sid (blk.getD j 0)) _ j hj
+    have hsl := hfree _ j hm
+    rw [ws_map] at hsl
+    have hd : blk.getD j 0 = b := by simp [List.getD, hb]
+    simp only [hd] at hsl
+    rw [hsl] at hs
+    cases hf : pool.filter (fun w => sid w == sid b) with
+    | nil => rw [hf] at hs; simp [slotOf] at hs
+    | cons x rest =>
+      rw [hf] at hs
+      simp only [slotOf] at hs
+      split at hs
+      · rename_i hall
+        simp only [Option.some.injEq, Slot.pool.injEq] at hs
+        subst hs
+        have hx : x ∈ pool.filter (fun w => sid w == sid b) := by rw [hf]; simp
+        have hx' := List.mem_filter.mp hx
+        rcases hcoll x hx'.1 j hj b hb (by simpa using hx'.2) with e | hbp
+        · exact e
+        · have hbm : b ∈ pool.filter (fun w => sid w == sid b) := List.mem_filter.mpr ⟨hbp, by simp⟩
+          rw [hf] at hbm
+          rcases List.mem_cons.mp hbm with e | hr
+          · exact e.symm
+          · exact (hall b hr).symm
+      · cases hs
+
+theorem missingIndexes_view : ∀ (slots : List Slot) (blk : List Nat) (i : Nat), slots.length = blk.length →
+    (missingIndexes (partialView slots blk) i).map (fun j => (List.replicate i 0 ++ blk).getD j 0) = missingOf slots blk
+  | [], [], _, _ => rfl
+  | [], _ :: _, _, h => by simp at h
+  | _ :: _, [], _, h => by simp at h
+  | sl :: r, b :: bs, i, h => by
+    have ih := missingIndexes_view r bs (i + 1) (by simpa using h)
+    have hshift : (List.replicate (i + 1) 0 ++ bs) = List.replicate i 0 ++ 0 :: bs := by
+      rw [List.replicate_succ', List.append_assoc]; rfl
+    -- positions ≥ i + 1 do not see the element at i
+    have hagree : ∀ j ∈ missingIndexes (partialView r bs) (i + 1),
+        (List.replicate i 0 ++ b :: bs).getD j 0 = (List.replicate (i + 1) 0 ++ bs).getD j 0 := by
+      have hge : ∀ (p : List (Option Nat)) (k : Nat), ∀ j ∈ missingIndexes p k, k ≤ j := by
+        intro p
+        induction p with
+        | nil => intro k j hj; cases hj
+        | cons o p ihp =>
+          intro k j hj
+          cases o with
+          | none =>
+            simp only [missingIndexes, List.mem_cons] at hj
+            rcases hj with rfl | hj
+            · exact Nat.le_refl _
+            · exact Nat.le_of_succ_le (ihp _ _ hj)
+          | some _ =>
+            simp only [missingIndexes] at hj
+            exact Nat.le_of_succ_le (ihp _ _ hj)
+      intro j hj
+      have hji := hge _ _ j hj
+      rw [hshift]
+      simp only [List.getD_eq_getElem?_getD]
+      rw [List.getElem?_append_right (by simp; omega), List.getElem?_append_right (by simp; omega)]
+      simp only [List.length_replicate]
+      have : j - i = (j - i - 1) + 1 := by omega
+      rw [this]; simp
+    cases sl with
+    | pool w =>
+      simp only [partialView, missingIndexes, missingOf]
+      rw [← ih]
+      exact List.map_congr_left hagree
+    | «prefilled» =>
+      simp only [partialView, missingIndexes, missingOf]
+      rw [← ih]
+      exact List.map_congr_left hagree
+    | missing =>
+      simp only [partialView, missingIndexes, missingOf, List.map_cons]
+      rw [← ih]
+      congr 1
+      · simp [List.getD_eq_getElem?_getD]
+      · exact List.map_congr_left hagree
+
+/-- T6, the whole exchange: a block announced with valid prefilled positions whose own short ids are distinct, received
+    by a node with ANY pool satisfying the weak collision hypothesis, comes back as exactly the block. -/
+theorem roundTrip_ok (sid : Nat → Nat) (blk pre pool : List Nat) (hne : blk ≠ [])
+    (hpos : positionsOk pre blk.length = true) (hnd : hasDup (compactOf sid blk pre) = false)
+    (hcoll : ∀ w ∈ pool, ∀ j ∈ freePos pre blk.length, ∀ b, blk[j]? = some b → sid w = sid b → w = b ∨ b ∈ pool) :
+    ∃ missing, roundTrip sid blk pre pool = .ok (missing, blk) := by
+  have hp := hpos
+  unfold positionsOk at hp
+  simp only [Bool.and_eq_true] at hp
+  obtain ⟨hnodup, hbound⟩ := increasing_bound pre blk.length hp.1 hp.2
+  have hcount := freePos_count pre blk.length hnodup hbound
+  have hlen : (compactOf sid blk pre).length + pre.length = blk.length := by
+    rw [compactOf_eq, List.length_map]; exact hcount
+  have h0 : (compactOf sid blk pre).length + pre.length ≠ 0 := by
+    rw [hlen]; intro h; exact hne (List.eq_nil_of_length_eq_zero h)
+  obtain ⟨slots, hrec⟩ := reconstruct_is_ok pre (compactOf sid blk pre) (pool.map fun w => (sid w, w)) h0
+    (by rw [hlen]; exact hpos) hnd
+  obtain ⟨hsl, hfill⟩ := reconstruct_fill_weak sid blk pre pool slots hcount hcoll (by rw [← compactOf_eq]; exact hrec)
+  unfold roundTrip
+  simp only [hrec]
+  have hmi := missingIndexes_view slots blk 0 hsl
+  simp only [List.replicate_zero, List.nil_append] at hmi
+  rw [hmi]
+  have : fillP (partialView slots blk) (missingOf slots blk) = .ok blk := by
+    unfold fillP
+    rw [missing_count, if_neg (by simp), fillGo_view slots blk hsl, hfill]
+  rw [this]
+  exact ⟨_, rfl⟩
+
+/-- …and a block two of whose announced short ids coincide is refused (`short ids are not unique: re-request the
+    block`), whatever the pool. -/
+theorem roundTrip_refuses_collision (sid : Nat → Nat) (blk pre pool : List Nat) (hne : blk ≠ [])
+    (hpos : positionsOk pre blk.length = true) (hd : hasDup (compactOf sid blk pre) = true) :
+    roundTrip sid blk pre pool = .error (.reconstruct .dupShortIds) := by
+  have hp := hpos
+  unfold positionsOk at hp
+  simp only [Bool.and_eq_true] at hp
+  obtain ⟨hnodup, hbound⟩ := increasing_bound pre blk.length hp.1 hp.2
+  have hlen : (compactOf sid blk pre).length + pre.length = blk.length := by
+    rw [compactOf_eq, List.length_map]; exact freePos_count pre blk.length hnodup hbound
+  have := (reconstruct_dup_iff pre (compactOf sid blk pre) (pool.map fun w => (sid w, w))).mpr
+    ⟨by rw [hlen]; intro h; exact hne (List.eq_nil_of_length_eq_zero h), by rw [hlen]; exact hpos, hd⟩
+  unfold roundTrip
+  simp only [this]
 
 end Btc.CompactBlocks
